@@ -366,13 +366,15 @@ class MathArray(np.ndarray):
         True
         """
         # setup
+        previous = cls._negative_powers
         cls._negative_powers = value
         try:
             # try with block
             yield
         finally:
-            # teardown
-            cls._negative_powers = cls._default_negative_powers
+            # teardown: restore whatever was in force before, so that nested uses
+            # (a grader evaluated while another grader's check is in progress) are safe
+            cls._negative_powers = previous
 
     def __rpow__(self, other):
         if is_numberlike_array(self) and isinstance(other, Number):
